@@ -32,9 +32,10 @@ func (cc *CheckCtx) runRel(rs relSpec) {
 	opts.FreshBase = 100000
 	fr2 := cc.W.RunFunc(rs.Pkg, rs.Func, opts)
 	if fr1.Err != "" || fr2.Err != "" {
-		cc.ToolErr = append(cc.ToolErr, key+": "+fr1.Err+fr2.Err)
+		cc.funcErr(rs.Pkg, rs.Func, fr1.Err+fr2.Err)
 		return
 	}
+	cc.noteWarn(fr1)
 	for k := range fr1.VC.Inlined {
 		cc.Inlined[k] = true
 	}
@@ -249,7 +250,7 @@ func (cc *CheckCtx) runRel40() {
 		fr1 := w.RunFunc("40", "(*CVSS40).Score", RunOpts{ConcreteRet: cr, NoSafety: true, SkipPost: true, FreshBase: i * 100})
 		fr2 := w.RunFunc("40", "(*CVSS40).Score", RunOpts{ConcreteRet: cr, NoSafety: true, SkipPost: true, Suffix: "_b", FreshBase: i*100 + 50})
 		if fr1.Err != "" || fr2.Err != "" {
-			cc.ToolErr = append(cc.ToolErr, key+": "+fr1.Err+fr2.Err)
+			cc.funcErr("40", "(*CVSS40).Score", fr1.Err+fr2.Err)
 			return
 		}
 		for _, o := range fr1.VC.Obligs {
@@ -286,6 +287,7 @@ func (cc *CheckCtx) runRel40() {
 		termMu.Unlock()
 		jobs = append(jobs, jb{fmt.Sprintf("gocvss40.(*CVSS40).Score/rel/depends_only_on_effective_values[mv=%s]", mvLabel(e)), script})
 		if i == 0 {
+			cc.noteWarn(fr1)
 			for k := range fr1.VC.Inlined {
 				cc.Inlined[k] = true
 			}
